@@ -362,6 +362,7 @@ CHECKS["C08"] = {
     "nontrivial_floor": 500,
     "units": [
         {"name": "vhost", "run": "^TestC08VHost$", "kind": "plain"},
+        {"name": "raw-param", "run": "^TestC08RawParam$", "kind": "plain"},
         {"name": "replaced-file", "run": "^TestC08Replaced$", "kind": "plain"},
         {"name": "cache-expiry", "run": "^TestC08CacheExpiry$", "kind": "plain", "shards": 8},
         {"name": "range-grid", "run": "^TestC08RangeGrid$", "kind": "plain", "shards": 8},
